@@ -16,6 +16,7 @@ RunClause(base, r) ==
     ELSE IF r.outcome # "ok" THEN "NoFailure"
     ELSE IF r.px # base.px THEN (IF r.kind = "perm" THEN "PixelLocal" ELSE IF r.kind = "threads" THEN "ThreadCountInvariant" ELSE "SameValues")
     ELSE IF r.dtype # base.dtype THEN "SameDtype"
+    ELSE IF "adtype" \in DOMAIN r /\ r.adtype # r.dtype THEN "AnnouncedDtype"   \* a lazy result computes to the dtype it announces
     ELSE IF r.kind # "dimorder" /\ r.dims # base.dims THEN "SameDims"
     ELSE IF r.kind = "dimorder" /\ {r.dims[i] : i \in 1..Len(r.dims)} # {base.dims[i] : i \in 1..Len(base.dims)} THEN "SameDims"
     ELSE IF r.coords # base.coords THEN "SameCoords"
